@@ -241,6 +241,9 @@ def run(ctx):
     c03.r315(ctx, repo['core'], 'R1.16')
     c03.r316(ctx, repo['core'], repo['compression'], 'R1.17')
     from . import callsigs as _cs
+    from . import findings3 as _f3
+    _f3.read_conversions(ctx, 'R1.28')
+    _f3.write_conversions(ctx, 'R1.29')
     _cs.general_rules(ctx, 'R1', ['writer.write', 'writer.write_simple', 'writer.write_multi', 'writer.make_row_group', 'writer.make_part_file', 'writer.partition_on_columns', 'writer.make_metadata', 'writer.write_column', 'core', 'api.ParquetFile.to_pandas', 'api.ParquetFile.read_row_group_file', 'converted_types', 'encoding', 'writer.convert', 'writer.find_type', 'api.ParquetFile.pre_allocate', 'api.ParquetFile._dtypes', 'api._pre_allocate', 'dataframe'])
 
 
@@ -748,13 +751,20 @@ def r124(ctx, rule='R1.24'):
     n = 0
     for q in ('write_column', 'convert'):
         f = wr.func(q)
-        checks = [x for x in walk_no_nested(f) if isinstance(x, ast.If) and "astype('float64')" in norm(x.test) and '!=' in norm(x.test)
-                  and any(isinstance(r, ast.Raise) for r in x.body)]
+        # accepted forms: the cast compared with the values as floats, or - stronger, also refusing text that int() /
+        # bool() would parse - with the original objects themselves
+        checks = [x for x in walk_no_nested(f) if isinstance(x, ast.If) and '!=' in norm(x.test) and any(isinstance(r, ast.Raise) for r in x.body)
+                  and ("astype('float64')" in norm(x.test) or 'values.values != data.values' in norm(x.test) or 'data.values != out' in norm(x.test))]
         n += len(checks)
         ctx.ob(rule, 'writer.%s:integer-cast-of-object-values-verified' % q, len(checks) >= 1,
                'object values cast with astype(int*) without comparing back: 3.5 becomes 3', wr.loc(f))
         for x in checks:
             partial = [y for y in ast.walk(x.test) if isinstance(y, ast.Subscript) or (isinstance(y, ast.Attribute) and y.attr in ('iloc', 'head', 'tail'))]
+            # (leaving the infinities out of the comparison is harmless where a range test follows that converts the
+            # extremes with int(): int(inf) raises)
+            if partial and all(isinstance(y, ast.Subscript) and norm(y.slice) in ('~np.isinf(data.values)', '~np.isinf(values)') for y in partial) \
+                    and any(isinstance(z, ast.Call) and norm(z.func) == 'int' and 'data.values.max()' in norm(z) for z in ast.walk(f)):
+                partial = []
             ctx.ob(rule, 'writer.%s:every-value-of-the-cast-is-compared' % q, not partial,
                    '`%s` looks at part of the values only; the guess that picked the integer encoding is not made on append nor '
                    'for later row groups' % norm(x.test)[:100], wr.loc(x))
@@ -769,6 +779,13 @@ def r125(ctx, rule='R1.25'):
     f = ct.func('converts_inplace')
     arms = [x for x in f.body if isinstance(x, ast.If) and 'logicalType' in norm(x.test)]
     ok = len(arms) == 1 and 'TIMESTAMP' in norm(arms[0].test) and [norm(s) for s in arms[0].body] == ['return True']
+    if not ok and len(arms) == 1 and [norm(s) for s in arms[0].body] == ['return True']:
+        # a wider promise (any logical type) is harmless as long as the only consumer, the v2 reader, also insists on the
+        # same kind of stored and output values before it copies in place (then no converting annotation gets there:
+        # decimals come out as floats, narrower integers differ in width, times are excluded by kind)
+        rd = ctx.repo['core'].func('read_data_page_v2')
+        ok = any(isinstance(st, ast.If) and 'see' in norm(st.test) and '.kind' in norm(st.test)
+                 and any(isinstance(x, ast.Assign) and norm(x) == 'see = False' for x in st.body) for st in walk_no_nested(rd))
     ctx.ob(rule, 'converted_types.converts_inplace:logical-type-arm-is-for-timestamps-only', ok,
            '`if %s: return True`' % (norm(arms[0].test) if arms else '?'), ct.loc(arms[0]) if arms else ct.loc(f))
     ctx.ob(rule, 'converted_types.converts_inplace:everything-else-is-not-in-place', norm(f.body[-1]) == 'return False', norm(f.body[-1]), ct.loc(f))
